@@ -460,6 +460,9 @@ class EvolvableMultiInput(EvolvableModule):
         """
         self.activation = activation
         if output:
+            # NOTE: Must be recorded for the network to be rebuilt identically from its
+            # init_dict (clone, checkpoints)
+            self.output_activation = activation
             self.output = get_activation(activation)
 
     @mutation(MutationType.NODE)
